@@ -281,10 +281,10 @@ package css
 //@   ensures[F,C07] @string: result0 == StringToken || result0 == BadStringToken ==> (old(l.r.buf[l.r.pos]) == '"' || old(l.r.buf[l.r.pos]) == '\'') &&
 //@        l.r.pos == strEnd(l.r.buf, old(l.r.pos)+1, old(l.r.buf[l.r.pos])) + ite(l.r.buf[strEnd(l.r.buf, old(l.r.pos)+1, old(l.r.buf[l.r.pos]))] == old(l.r.buf[l.r.pos]) || cNL(l.r.buf[strEnd(l.r.buf, old(l.r.pos)+1, old(l.r.buf[l.r.pos]))]), 1, 0) &&
 //@        (result0 == BadStringToken <==> cNL(l.r.buf[strEnd(l.r.buf, old(l.r.pos)+1, old(l.r.buf[l.r.pos]))]))
-//@   ensures[F,C07] @number: result0 == NumberToken ==> l.r.pos == cssNumEnd(l.r.buf, old(l.r.pos)) && l.r.pos > old(l.r.pos)
-//@   ensures[F,C07] @percentage: result0 == PercentageToken ==> l.r.pos == cssNumEnd(l.r.buf, old(l.r.pos)) + 1 && l.r.buf[l.r.pos-1] == '%' && l.r.pos > old(l.r.pos) + 1
-//@   ensures[F,C07] @dimension: result0 == DimensionToken ==> l.r.pos > cssNumEnd(l.r.buf, old(l.r.pos)) && cssNumEnd(l.r.buf, old(l.r.pos)) > old(l.r.pos)
-//@   ensures[F,C07] @numeric-first: cssNumEnd(l.r.buf, old(l.r.pos)) > old(l.r.pos) && old(l.r.buf[l.r.pos]) != '-' ==> result0 == NumberToken || result0 == PercentageToken || result0 == DimensionToken
+//@   ensures[F,C07,perpath] @number: result0 == NumberToken ==> l.r.pos == cssNumEnd(l.r.buf, old(l.r.pos)) && l.r.pos > old(l.r.pos)
+//@   ensures[F,C07,perpath] @percentage: result0 == PercentageToken ==> l.r.pos == cssNumEnd(l.r.buf, old(l.r.pos)) + 1 && l.r.buf[l.r.pos-1] == '%' && l.r.pos > old(l.r.pos) + 1
+//@   ensures[F,C07,perpath] @dimension: result0 == DimensionToken ==> l.r.pos > cssNumEnd(l.r.buf, old(l.r.pos)) && cssNumEnd(l.r.buf, old(l.r.pos)) > old(l.r.pos)
+//@   ensures[F,C07,perpath] @numeric-first: cssNumEnd(l.r.buf, old(l.r.pos)) > old(l.r.pos) && old(l.r.buf[l.r.pos]) != '-' ==> result0 == NumberToken || result0 == PercentageToken || result0 == DimensionToken
 //@   loop * candidate[F] forall(k, old(l.r.pos), l.r.pos, cWS(l.r.buf[k]))
 
 //@ func Lexer.Err
